@@ -631,6 +631,7 @@ class Interp:
         sub = Interp(toks, self.alg, self.leaf, self.symbolic, params=None, files=subfiles, depth=self.depth + 1,
                      symfactory=self.symfactory)
         sub.dom = self.dom
+        sub.forks = self.forks
         prog = sub.run()
         self.prog.includes[prog.name] = (path, (toks, subfiles, prog))
         for nm, v in prog.includes.items():
